@@ -16,11 +16,14 @@ import (
 	"fmt"
 	"io"
 	"math/rand"
+	"net"
+	"net/http"
 	"os"
 	"path/filepath"
 	"regexp"
 	"runtime/debug"
 	"strings"
+	"sync"
 
 	"golang.org/x/crypto/openpgp"           //nolint
 	"golang.org/x/crypto/openpgp/armor"     //nolint
@@ -28,10 +31,13 @@ import (
 	"golang.org/x/crypto/openpgp/packet"    //nolint
 
 	"helm.sh/helm/v4/pkg/action"
+	chart "helm.sh/helm/v4/pkg/chart/v2"
 	"helm.sh/helm/v4/pkg/cli"
 	"helm.sh/helm/v4/pkg/downloader"
 	"helm.sh/helm/v4/pkg/getter"
 	"helm.sh/helm/v4/pkg/provenance"
+	"helm.sh/helm/v4/pkg/repo"
+	"sigs.k8s.io/yaml"
 )
 
 func Register(c map[string]func(args []string) error) {
@@ -49,6 +55,17 @@ type Case struct {
 		WithProv    bool   `json:"withProv"`
 		WithoutProv bool   `json:"withoutProv"`
 	} `json:"download"`
+	Pull []struct {
+		Verify      bool `json:"verify"`
+		Later       bool `json:"later"`
+		WithProv    bool `json:"withProv"`
+		WithoutProv bool `json:"withoutProv"`
+	} `json:"pull"`
+	Deps []struct {
+		Order    []string `json:"order"`
+		Strategy string   `json:"strategy"`
+		OK       bool     `json:"ok"`
+	} `json:"deps"`
 }
 
 // Obs is one concrete realisation of a case and what the real code said about it.
@@ -78,6 +95,11 @@ type world struct {
 	prov     string // signed by helm's ClearSign with the signer's key
 	chartDir string
 	rng      *rand.Rand
+	// a second, untampered chart signed by the signer (the other dependency of a dependency update)
+	goodName    string
+	goodArchive []byte
+	goodProv    string
+	version     string
 }
 
 var pgpConfig = &packet.Config{DefaultHash: crypto.SHA512, RSABits: 2048}
@@ -141,12 +163,27 @@ func newWorld(dir string, seed int64) (*world, error) {
 	if err != nil {
 		return nil, err
 	}
+	w.version = strings.TrimSuffix(strings.TrimPrefix(w.name, "mychart-"), ".tgz")
+	gdir := filepath.Join(dir, "src", "goodchart")
+	os.MkdirAll(filepath.Join(gdir, "templates"), 0o755)
+	os.WriteFile(filepath.Join(gdir, "Chart.yaml"), []byte("apiVersion: v2\nname: goodchart\nversion: 0.3.0\ndescription: the untampered neighbour\n"), 0o644)
+	os.WriteFile(filepath.Join(gdir, "templates", "cm.yaml"), []byte("apiVersion: v1\nkind: ConfigMap\nmetadata:\n  name: good\n"), 0o644)
+	gp, err := pk.Run(gdir, nil)
+	if err != nil {
+		return nil, err
+	}
+	w.goodName = filepath.Base(gp)
+	w.goodArchive, _ = os.ReadFile(gp)
+	if w.goodProv, err = s.ClearSign(gp); err != nil {
+		return nil, err
+	}
 	return w, nil
 }
 
 // concrete is the concrete counterpart of the symbolic state.
 type concrete struct {
-	flipped map[int]bool
+	caseVariant int
+	flipped     map[int]bool
 	archive []byte
 	name    string
 	prov    []byte
@@ -310,9 +347,20 @@ func (w *world) apply(c *concrete, act string, m int) error {
 		c.flipped = nil
 		c.archive = c.archive[:n]
 		c.muts = append(c.muts, fmt.Sprintf("archive cut to %d bytes", n))
-	case "Rename":
-		if !strings.Contains(c.name, "copy") { // renaming twice gives the same name
-			c.name = strings.Replace(c.name, "mychart-", "mychart-copy-", 1)
+	case "Rename": // the name is a function of the abstract name alone: renaming twice gives the same name
+		c.name = strings.Replace(w.name, "mychart-", "mychart-copy-", 1)
+		c.muts = append(c.muts, "archive named "+c.name)
+	case "RenameCase": // the original letters in another case (the extension still says tgz to helm)
+		if c.caseVariant == 0 {
+			c.caseVariant = 1 + pick(3)
+		}
+		switch c.caseVariant {
+		case 1:
+			c.name = strings.ToUpper(w.name[:1]) + w.name[1:]
+		case 2:
+			c.name = strings.TrimSuffix(w.name, ".tgz") + ".TGZ"
+		default:
+			c.name = strings.ToUpper(strings.TrimSuffix(w.name, ".tgz")) + ".tgz"
 		}
 		c.muts = append(c.muts, "archive named "+c.name)
 	case "EditBody":
@@ -367,7 +415,7 @@ func (w *world) apply(c *concrete, act string, m int) error {
 		c.prov = digestRe.ReplaceAll(c.prov, []byte("sha256:"+sha(c.archive)))
 		c.muts = append(c.muts, "digest in the signed text set to the archive's")
 	case "FixName":
-		re := regexp.MustCompile(`(?m)^(\s+)(\S+\.tgz):`)
+		re := regexp.MustCompile(`(?mi)^(\s+)(\S+\.tgz):`)
 		c.prov = re.ReplaceAll(c.prov, []byte("${1}"+c.name+":"))
 		c.muts = append(c.muts, "file name in the signed text set to "+c.name)
 	case "SwapSig":
@@ -421,6 +469,7 @@ func guard(f func() error) (err error, pan string) {
 }
 
 type runner struct {
+	srv     *fileServer
 	allBits bool
 	seed    int64
 	w    *world
@@ -530,6 +579,129 @@ func (r *runner) verdicts(cs Case, rep int, c *concrete, wide bool) {
 				}, false)
 		}
 	}
+	if rep != 0 {
+		return
+	}
+	// helm pull with every combination of --verify and --prov, from a loopback server
+	for _, pl := range cs.Pull {
+		for _, withProv := range []bool{true, false} {
+			if !withProv && !pl.Verify {
+				continue // nothing is required, nothing to fetch: the same as the download strategies above
+			}
+			pl, withProv := pl, withProv
+			expect := pl.WithoutProv
+			if withProv {
+				expect = pl.WithProv
+			}
+			record(fmt.Sprintf("action.Pull/verify=%v,prov=%v/%s", pl.Verify, pl.Later, map[bool]string{true: "prov", false: "noprov"}[withProv]), expect,
+				func() (*provenance.Verification, error) {
+					dest := filepath.Join(r.work, "pull")
+					os.RemoveAll(dest)
+					os.MkdirAll(dest, 0o755)
+					r.srv.set(map[string][]byte{"/stable/" + c.name: c.archive}, nil)
+					if withProv {
+						r.srv.set(map[string][]byte{"/stable/" + c.name: c.archive, "/stable/" + c.name + ".prov": c.prov}, nil)
+					}
+					st := cli.New()
+					st.RepositoryConfig = filepath.Join(r.work, "no-repositories.yaml")
+					st.RepositoryCache = filepath.Join(r.work, "cache")
+					st.PluginsDirectory = filepath.Join(r.work, "no-plugins")
+					p := action.NewPull(action.WithConfig(&action.Configuration{}))
+					p.Settings, p.DestDir, p.Keyring = st, dest, ring
+					p.Verify, p.VerifyLater = pl.Verify, pl.Later
+					_, err := p.Run(r.srv.url + "/stable/" + c.name)
+					return nil, err
+				}, false)
+		}
+	}
+	// helm dependency update with verification required: this chart and an untampered neighbour, in either order
+	for _, dp := range cs.Deps {
+		dp := dp
+		record("Manager.Update/"+dp.Strategy+"/"+strings.Join(dp.Order, "+"), dp.OK, func() (*provenance.Verification, error) {
+			return nil, r.depsUpdate(c, ring, dp.Order)
+		}, false)
+	}
+}
+
+// fileServer: a loopback HTTP server for the code that only speaks through getter.All.
+type fileServer struct {
+	mu    sync.Mutex
+	files map[string][]byte
+	url   string
+}
+
+func (f *fileServer) set(files map[string][]byte, _ any) {
+	f.mu.Lock()
+	f.files = files
+	f.mu.Unlock()
+}
+
+func startFileServer() (*fileServer, error) {
+	f := &fileServer{}
+	ln, err := net.Listen("tcp", "127.0.0.1:0")
+	if err != nil {
+		return nil, err
+	}
+	f.url = "http://" + ln.Addr().String()
+	go http.Serve(ln, http.HandlerFunc(func(w http.ResponseWriter, rq *http.Request) {
+		f.mu.Lock()
+		b, ok := f.files[rq.URL.Path]
+		f.mu.Unlock()
+		if !ok {
+			http.NotFound(w, rq)
+			return
+		}
+		w.Write(b)
+	}))
+	return f, nil
+}
+
+// mapGetter serves the files of a repository by the base name of the URL.
+type mapGetter struct{ files map[string][]byte }
+
+func (g mapGetter) Get(href string, _ ...getter.Option) (*bytes.Buffer, error) {
+	b, ok := g.files[filepath.Base(href)]
+	if !ok {
+		return nil, fmt.Errorf("failed to fetch %s : 404 Not Found", href)
+	}
+	return bytes.NewBuffer(append([]byte(nil), b...)), nil
+}
+
+// depsUpdate: Manager.Update (VerifyAlways) of a chart that depends on this chart and on the good one.
+func (r *runner) depsUpdate(c *concrete, ring string, order []string) error {
+	w := r.w
+	dir := filepath.Join(r.work, "deps")
+	os.RemoveAll(dir)
+	cache := filepath.Join(dir, "cache")
+	os.MkdirAll(cache, 0o755)
+	const repoURL = "http://deps.c17.test/charts"
+	repoCfg := filepath.Join(dir, "repositories.yaml")
+	rf := repo.NewFile()
+	rf.Add(&repo.Entry{Name: "r", URL: repoURL})
+	rf.WriteFile(repoCfg, 0o644)
+	ix := repo.NewIndexFile()
+	ix.MustAdd(&chart.Metadata{APIVersion: "v2", Name: "mychart", Version: w.version}, c.name, repoURL, "")
+	ix.MustAdd(&chart.Metadata{APIVersion: "v2", Name: "goodchart", Version: "0.3.0"}, w.goodName, repoURL, "")
+	ix.SortEntries()
+	ix.WriteFile(filepath.Join(cache, "r-index.yaml"), 0o644)
+	cdir := filepath.Join(dir, "parent")
+	os.MkdirAll(cdir, 0o755)
+	md := &chart.Metadata{APIVersion: "v2", Name: "parent", Version: "0.1.0"}
+	for _, d := range order {
+		if d == "this" {
+			md.Dependencies = append(md.Dependencies, &chart.Dependency{Name: "mychart", Version: w.version, Repository: repoURL})
+		} else {
+			md.Dependencies = append(md.Dependencies, &chart.Dependency{Name: "goodchart", Version: "0.3.0", Repository: repoURL})
+		}
+	}
+	b, _ := yaml.Marshal(md)
+	os.WriteFile(filepath.Join(cdir, "Chart.yaml"), b, 0o644)
+	g := mapGetter{files: map[string][]byte{c.name: c.archive, c.name + ".prov": c.prov,
+		w.goodName: w.goodArchive, w.goodName + ".prov": []byte(w.goodProv)}}
+	m := &downloader.Manager{Out: io.Discard, ChartPath: cdir, SkipUpdate: true, Verify: downloader.VerifyAlways, Keyring: ring,
+		Getters:          getter.Providers{{Schemes: []string{"http"}, New: func(...getter.Option) (getter.Getter, error) { return g, nil }}},
+		RepositoryConfig: repoCfg, RepositoryCache: cache}
+	return m.Update()
 }
 
 type serveGetter struct {
@@ -561,10 +733,14 @@ func (r *runner) singleSet(act string, full bool, c *concrete) []int {
 		switch act {
 		case "Rename", "FixDigest", "FixName", "SwapSig":
 			return []int{0}
+		case "RenameCase":
+			return []int{0, 1, 2}
 		}
 		return sample(1<<30, 12)
 	}
 	switch act {
+	case "RenameCase":
+		return []int{0, 1, 2}
 	case "FlipArchive":
 		n := len(c.archive)
 		out := []int{}
@@ -718,6 +894,9 @@ func cmdRun(args []string) error {
 	r := &runner{allBits: *allBits, seed: *seed, w: w, out: bufio.NewWriterSize(out, 1<<20), work: filepath.Join(*tmp, "work")}
 	defer r.out.Flush()
 	os.MkdirAll(r.work, 0o755)
+	if r.srv, err = startFileServer(); err != nil {
+		return err
+	}
 	if err := r.packageRoundTrip(fmt.Sprintf("C17 signer %d", *seed)); err != nil {
 		return err
 	}
